@@ -252,3 +252,9 @@ def run_case(desc):
     if out.nontrivial:
         out.cls("nontrivial")
     return out
+
+
+def extra_engine(tier, seed, work):
+    """coverage-guided tier: libFuzzer + ASan/UBSan on the current C++ with the oracle inside the target (DESIGN 2.6)"""
+    from vlib import fuzz
+    return fuzz.campaign(ID, seed, 8 if tier == "quick" else 300, 16, work)
